@@ -659,7 +659,8 @@ func (s *BgpServer) prePolicyFilterpath(peer *peer, path, old *table.Path) (*tab
 
 	// replace-peer-as handling
 	if path != nil && !path.IsWithdraw && conf.AsPathOptions.State.ReplacePeerAs {
-		path = path.ReplaceAS(conf.Config.LocalAs, conf.Config.PeerAs)
+		// the AS learned from the peer's OPEN: peer-as may be unconfigured
+		path = path.ReplaceAS(conf.Config.LocalAs, peer.AS())
 	}
 
 	if path = filterpath(peer, path, old); path == nil {
